@@ -213,6 +213,22 @@ class Interp:
                     pat = pat['p']
                 if pat['k'] != 'ident' or st['init'] is None or st.get('else'):
                     raise Undecided('let pattern')
+                ini = st['init']
+                if ini['k'] == 'mcall' and ini['m'] == 'unwrap_or' and len(ini['args']) == 1 and ini['recv']['k'] == 'mcall' and ini['recv']['m'] == 'strip_prefix' and len(ini['recv']['args']) == 1:
+                    sp = ini['recv']
+                    a = sp['args'][0]
+                    if a['k'] == 'ref':
+                        a = a['e']
+                    if a['k'] != 'bstr':
+                        raise Undecided('strip_prefix with non-literal')
+                    base = self.view(sp['recv'], env)
+                    alt = self.view(ini['args'][0], env)
+                    has = prefix_any(base, rx(('cat', [lit(a['v']) if a['v'] else EPS, ('star', ANY)])))
+                    env1 = dict(env); env1[pat['name']] = ('slice', base + len(a['v']))
+                    env2 = dict(env); env2[pat['name']] = ('slice', alt)
+                    t1, f1 = self.eval_block(stmts[i + 1:], env1, path.intersect(has))
+                    t2, f2 = self.eval_block(stmts[i + 1:], env2, path.intersect(has.complement()))
+                    return T.union(t1).union(t2), F.union(f1).union(f2)
                 env[pat['name']] = self.eval_let(st['init'], env)
                 continue
             if st['k'] == 'expr':
@@ -402,6 +418,34 @@ class Interp:
                 else:
                     t = rx(('cat', [('star', ANY), ('set', frozenset(bset)), ('star', ANY)]))
                 return prefix_any(off, t), prefix_any(off, t.complement())
+            # X.chunks(n).all(slicepred): full n-byte chunks, then one shorter chunk if len % n != 0; all() stops at the first false
+            if inner['m'] in ('chunks', 'chunks_exact') and len(inner['args']) == 1 and inner['args'][0]['k'] == 'int' and m == 'all':
+                n = inner['args'][0]['v']
+                if n <= 0:
+                    raise Undecided('chunks(0) panics')
+                off = self.view(inner['recv'], env)
+                tg, fg = self.slice_fn(e['args'][0])
+                exact = rx(('rep', ANY, n, n))
+                part = rx(('rep', ANY, 1, n - 1)) if n > 1 else DFA.empty()
+                tn, fn_ = tg.intersect(exact), fg.intersect(exact)
+                pn = exact.intersect(tn.union(fn_).complement())
+                if inner['m'] == 'chunks':
+                    tp, fp = tg.intersect(part), fg.intersect(part)
+                    pp = part.intersect(tp.union(fp).complement())
+                    tail_t = rx(EPS).union(tp)
+                else:
+                    # chunks_exact ignores the remainder
+                    tp = fp = pp = DFA.empty()
+                    tail_t = rx(EPS).union(part)
+                anyd = rx(('star', ANY))
+                star_tn = rx(('star', ('dfa', tn))) if not tn.is_empty() else rx(EPS)
+                t = star_tn.concat(tail_t)
+                f = star_tn.concat(fn_.concat(anyd).union(fp))
+                panic = star_tn.concat(pn.concat(anyd).union(pp))
+                if not panic.is_empty():
+                    # inputs on which the chunk predicate indexes past the chunk: neither true nor false (reported by the caller as a panic)
+                    pass
+                return prefix_any(off, t), prefix_any(off, f)
             # X.split(|c| *c == b'x').all(slicepred)
             if inner['m'] == 'split' and len(inner['args']) == 1:
                 sep = self.byte_fn(inner['args'][0])
